@@ -123,9 +123,10 @@ m("irp-or-end-removed", ["C01", "C06"], ["IRP-bracket|expression|BinOp/Or"], IR,
 m("irp-and-rhs-hoisted", ["C01"], ["IRP-shortcircuit|And|right-operand-inside-if"], IR,
   "                        aops,\n                        vec![\n                            IR::Define(c),\n                            IR::Bool(default, false),\n                            IR::Assign(c, default),\n                            IR::If(a),\n                        ],\n                        bops,",
   "                        aops,\n                        bops,\n                        vec![\n                            IR::Define(c),\n                            IR::Bool(default, false),\n                            IR::Assign(c, default),\n                            IR::If(a),\n                        ],")
-m("irp-variant-not-counted", ["C01"], ["IRP-read|Variant"], IR,
-  "            | IR::Variant(_, _, a)\n", "")
-m("irp-call-inlinable", ["C01", "C10"], ["IRP-order|Call|materialised", "DECLARING-OPS|Call"], LUA,
+W.append(dict(name="irp-variant-not-counted", properties=["C01"], expect=["IRP-read|Variant"], edits=[
+    dict(file=IR, old="            | IR::Variant(_, _, a)\n", new="", count=1),
+    dict(file=IR, old="            | IR::HaltAndCatchFire(_) => {}", new="            | IR::Variant(_, _, _)\n            | IR::HaltAndCatchFire(_) => {}", count=1)]))
+m("irp-call-inlinable", ["C01"], ["IRP-order|Call|materialised"], LUA,
   '                IR::Call(t, f, args) => {\n                    write!(self.out, "local ");\n                    let t = self.expand(t);\n                    write!(self.out, "{}", t);\n                    write!(self.out, " = ");\n                    let f = self.expand(f);\n                    write!(self.out, "{}", f);\n                    let args = self.comma_sep(args).to_string();\n                    write!(self.out, "({})", args);\n                }',
   '                IR::Call(t, f, args) => {\n                    let f = self.expand(f);\n                    let args = self.comma_sep(args).to_string();\n                    iis!(self, t, "{}({})", f, args)\n                }')
 m("irp-if-out-undeclared", ["C10"], ["IRP-local|expression|If|out"], IR,
@@ -173,7 +174,7 @@ m("prec-unary-at-term", ["C13"], ["UNARY|unary|operand-level"], PEX,
   "let (ctx, expr) = parse_precedence(ctx, Prec::Factor)?;", "let (ctx, expr) = parse_precedence(ctx, Prec::Term)?;")
 
 # ---- layout pairing
-m("layout-list-pop-dropped", ["C14"], ["NEWLINE-FLAG|sylt_parser::expression::list"], PEX,
+m("layout-list-pop-dropped", ["C14"], ["NEWLINE-FLAG|expression::list"], PEX,
   "    let ctx = ctx.pop_skip_newlines(skip_newlines);\n    let ctx = expect!(ctx, T::RightBracket, \"Expected ']'\");",
   "    let ctx = expect!(ctx, T::RightBracket, \"Expected ']'\");")
 m("layout-prime-call-other-node", ["C14"], ["ONE-CALL-NODE|assignable_call|single-constructor"], PPA,
@@ -181,13 +182,13 @@ m("layout-prime-call-other-node", ["C14"], ["ONE-CALL-NODE|assignable_call|singl
   "    let result = if primer {\n        Assignable { span, kind: Call(Box::new(callee), args.into_iter().rev().collect()) }\n    } else {\n        Assignable { span, kind: Call(Box::new(callee), args) }\n    };")
 
 # ---- tokenizer
-m("tok-col-from-byte", ["C17", "C15"], ["UNIT|Span.col_start"], TOK,
+m("tok-col-from-byte", ["C17"], ["UNIT|Span.col_start"], TOK,
   "let col_start = char_at_byte[byte_range.start].unwrap() - last_newline;", "let col_start = byte_range.start + 1 - last_newline;")
 m("tok-line-advance-only-newline", ["C17", "C15"], ["LINE|advance|String"], TOK,
   "            } else {\n                // Tokens like strings can span multiple lines.\n                for (offset, _) in content[byte_range.clone()].match_indices('\\n') {\n                    last_newline = char_at_byte[byte_range.start + offset].unwrap();\n                    line += 1;\n                }\n            }",
   "            }")
-m("tok-comment-skipped", ["C17"], ["SKIP|only-whitespace", "SKIP|comment-is-token"], TOKT,
-  '#[regex(r"//[^\\n]*", |lex| lex.slice()[2..].trim().to_string())]\n    Comment(String),', '#[regex(r"//[^\\n]*", logos::skip)]\n    Comment(String),')
+m("tok-newline-skipped", ["C17"], ["SKIP|only-whitespace", "SKIP|newline-is-token"], TOKT,
+  '#[token("\\n")]\n    Newline,', '#[token("\\n", logos::skip)]\n    Newline,')
 
 # ---- modules
 m("mod-visited-test-dropped", ["C12"], ["VISIT-ONCE|tree|"], PPA,
@@ -226,8 +227,8 @@ m("lua-fold-callback-arity", ["C18"], ["EXTERNALS|list.list_fold|callback-f"], P
 
 # ---- annotations / non-interference
 m("nonint-lowering-reads-kind", ["C08"], ["NO-TYPE-FLOW|"], IR,
-  "        let start = Var(typechecker\n            .variables\n            .iter()\n            .find(|x| &x.name == \"start\" && x.is_global)",
-  "        let start = Var(typechecker\n            .variables\n            .iter()\n            .find(|x| &x.name == \"start\" && x.is_global && x.kind.immutable())")
+  "        .find(|x| &x.name == \"start\" && x.is_global)\n        .unwrap()\n        .id);",
+  "        .find(|x| &x.name == \"start\" && x.is_global && x.kind.immutable())\n        .unwrap()\n        .id);")
 m("names-lowering-uses-function-name", ["C09"], ["NAMES|"], IR,
   "            E::Function { body, params, .. } => {\n                let mut body = body.clone();",
   "            E::Function { body, params, name, .. } => {\n                let _dbg = name.len();\n                let mut body = body.clone();")
